@@ -1,6 +1,7 @@
 // C01 — legal move generation is exact (differential against the rules oracle, lock-step tree walk)
 #include "bridge.h"
 #include "registry.h"
+#include "ucirig.h"
 
 using namespace engine;
 
@@ -163,12 +164,67 @@ bool cmp(Position& pos, const ref::Pos& rp, int depth, Ctx& c, const std::string
     return true;
 }
 
+// the UCI `perft` command: per-move lines and the node total against the oracle
+bool c01_uci_perft(Tape& t, Report& rep, const gen::Root& root)
+{
+    rigns::Rig& R = rigns::rig();
+    std::vector<ref::Move> legal = ref::legal_moves(root.cur);
+    int depth = (legal.size() <= 40 && t.flag()) ? 2 : 1;
+    std::string cmd = "position fen " + ref::to_fen(root.start);
+    if (!root.moves.empty())
+    {
+        cmd += " moves";
+        for (auto& m : root.moves) cmd += " " + m.uci();
+    }
+    rep.decoded = cmd + " ; perft " + std::to_string(depth);
+    size_t mark = R.out.size();
+    R.send(cmd);
+    R.send("perft " + std::to_string(depth));
+    long li = R.out.wait_line(mark, [](const std::string& l) { return l.rfind("Speed:", 0) == 0; }, 120000);
+    rep.eval();
+    rep.cls("c01:uci_perft_command");
+    if (li < 0) return rep.fail("movegen:uci:no_answer", "perft printed no result\n " + rep.decoded);
+    std::map<std::string, uint64_t> got;
+    uint64_t total = 0;
+    bool dup = false;
+    for (auto& l : R.out.snapshot(mark))
+    {
+        auto c = l.find(": ");
+        if (l.rfind("Number of nodes: ", 0) == 0) total = strtoull(l.c_str() + 17, 0, 10);
+        else if (c != std::string::npos && c >= 4 && c <= 5 && l.find(' ') == c + 1 && l[0] >= 'a' && l[0] <= 'h' && l[1] >= '1' && l[1] <= '8' &&
+                 l[2] >= 'a' && l[2] <= 'h' && l[3] >= '1' && l[3] <= '8')
+        {
+            std::string mv = l.substr(0, c);
+            if (got.count(mv)) dup = true;
+            got[mv] = strtoull(l.c_str() + c + 2, 0, 10);
+        }
+    }
+    std::map<std::string, uint64_t> want;
+    uint64_t wtotal = 0;
+    for (auto& m : legal)
+    {
+        uint64_t n = depth == 1 ? 1 : ref::perft(ref::make(root.cur, m), depth - 1);
+        want[m.uci()] = n;
+        wtotal += n;
+    }
+    if (got != want || total != wtotal || dup)
+    {
+        std::string g, w;
+        for (auto& kv : got) g += " " + kv.first + ":" + std::to_string(kv.second);
+        for (auto& kv : want) w += " " + kv.first + ":" + std::to_string(kv.second);
+        return rep.fail("movegen:uci_perft", "UCI perft " + std::to_string(depth) + " differs from the rules at " + ref::to_fen(root.cur) + "\n engine (" +
+                                                 std::to_string(total) + "):" + g + "\n oracle (" + std::to_string(wtotal) + "):" + w + "\n session: " + rep.decoded.substr(0, 1500));
+    }
+    return true;
+}
+
 bool prop_C01(Tape& t, Report& rep)
 {
     br::init_engine();
     gen::Root root = gen::gen_root(t, &rep, 80);
     rep.decoded = root.describe();
     rep.cls("root:" + root.kind);
+    if (t.chance(1, 12)) return c01_uci_perft(t, rep, root);
     // two ways of constructing the engine position: from FEN, or by replaying the game (the UCI path)
     bool viaReplay = !root.moves.empty() && t.flag();
     Position pos = viaReplay ? br::replay(root) : br::from_fen(root.cur);
